@@ -15,7 +15,7 @@ CLAIMED = {
          "800 000 (quick) / 4 M (thorough) generated streams; those the strict reader accepts from a root element (acceptance rate of mutated streams measured, gate >= 10%) are re-written item by item through TagWriter::write (every call must be Ok) and re-read; the two item sequences must be identical (floats by bits). In a third of the cases the stream is also read with a generated set of buffered masters and those Full items are handed back to the writer: the re-read must again equal the first (unbuffered) reading.",
          "trusted: nothing beyond the harness drivers; rejected streams are outside the property", "4.2"),
  "C13": ("proptest documents with one injected fault of each class × exhaustive enumeration of all 8 tolerance subsets; plus mutated inputs × 8 subsets (metamorphic prefix relation); exhaustive size-limit threshold table",
-         "160 000 + 160 000 (quick) / 800 000 + 800 000 (thorough) inputs, each read under all 8 subsets of tolerated classes: own-class error kind at the fault's offset when not tolerated, never when tolerated, no raw tags without InvalidTagIds, strict items are a prefix of tolerant items; the size limit's threshold (M passes, M+1 fails, default 4e9 untouched) is enumerated first, on master headers, for 6 limits × 5 sizes × 3 widths × all 8 tolerance subsets × {root, inside a known-size parent it overruns, inside an unknown-size parent}: no tolerance switch relaxes the limit.",
+         "160 000 + 160 000 (quick) / 800 000 + 800 000 (thorough) inputs, each read under all 8 subsets of tolerated classes (a third of the cases a second time with the classes handed to allow_errors() in reverse order and each twice: same observations): own-class error kind at the fault's offset when not tolerated, never when tolerated, no raw tags without InvalidTagIds, strict items are a prefix of tolerant items; the size limit's threshold (M passes, M+1 fails, default 4e9 untouched) is enumerated first, on master headers, for 6 limits × 5 sizes × 3 widths × all 8 tolerance subsets × {root, inside a known-size parent it overruns, inside an unknown-size parent}: no tolerance switch relaxes the limit.",
          "trusted: reference encoder layout for the fault's offset; faults are built so that the other classes' conditions are false at the faulty element", "4.13"),
  "C14": ("proptest documents × exhaustive enumeration of every tag boundary as junk insertion point; oracle = undamaged parse shifted by the junk length, precondition decided from the reference layout",
          "48 000 (quick) / 250 000 (thorough) known-size documents, junk of 1-12 bytes (byte values that start no declared id) inserted at every boundary between two tags and at one random position; read from a slice or in short reads, with a small or default buffer, strictly or with hierarchy / oversized-element errors tolerated (never invalid ids: junk stays junk); with the precondition true: same prefix, exactly one error, try_recover Ok, rest identical with shifted offsets; always: no panic, only EOF/read errors from try_recover, never backwards.",
@@ -36,7 +36,7 @@ CLAIMED = {
          "480 000 (quick) / 2 M (thorough) sequences with failing calls (plus 160 000 / 800 000 cases of a master End rejected for its width: the master must stay open and unchanged) of every documented kind (tag not allowed, size not representable for a leaf or for a Full master, unknown size on a non-master through both calls, malformed raw id, End of a master that is not the innermost, Full master with an invalid child / a stray End child / a child master left open) inserted at generated positions; the failing call must return a non-I/O error, every other call must behave as in the reference run, the destination must stay a prefix of W(V) after every call and the final bytes must be identical.",
          "trusted: ref_match to construct calls that must fail; the destination never fails", "4.19"),
  "C03": ("proptest over the reader input mix × tolerance × buffered set × capacity; oracle = reference header parser + reference payload decoders at the reported offsets (validity predicate + tiling invariant)",
-         "960 000 (quick) / 5 M (thorough) inputs (valid, non-canonical, mutated, random, adversarial, mid-document) are read under random configurations; for every successful item up to the first error the id at the reported offset, the decoded value, the tiling of consecutive tags (inside Full items too) and the offsets of End/Full items are checked against the input bytes with an independent header parser and decoders.",
+         "960 000 (quick) / 5 M (thorough) inputs (valid, non-canonical, mutated, random, adversarial, mid-document) are read under random configurations (a third of them through short reads of 1-61 bytes); for every successful item up to the first error the id at the reported offset, the decoded value, the tiling of consecutive tags (inside Full items too) and the offsets of End/Full items are checked against the input bytes with an independent header parser and decoders.",
          "trusted: ref_header / ref_decode; a 0x00 byte read as raw id 0 under InvalidTagIds tolerance is accepted as its own class", "4.3"),
  "C04": ("exhaustive enumeration of all read partitions of small inputs × capacities + proptest random schedules / EOF pauses; metamorphic oracle (equality with the slice parse)",
          "Every composition of the input length into read sizes (2^(len-1) schedules) for 90 (quick, length <= 13) / 300 (thorough, length <= 16) small valid / truncated / corrupted documents × 12 capacities incl. 0, plus random schedules, capacities 0..64 and temporary Ok(0) at tag boundaries on the full reader mix; the whole observation sequence incl. the first error's fields must equal the slice parse.",
@@ -48,7 +48,7 @@ CLAIMED = {
          "960 000 (quick) / 5 M (thorough) strict-mode parses are replayed by an independent checker that keeps its own open-master stack: nesting, ids in spec, declared-path match, containment in every known-size range, End of known-size masters neither early nor late, everything closed with End at the end.",
          "trusted: ref_header, ref_match; where an unknown-size master ends is left to C07", "4.6"),
  "C08": ("proptest inputs × exhaustive enumeration of all buffered-id subsets (<= 6 masters); metamorphic oracle (unrolled buffered parse == unbuffered parse, prefix + error otherwise)",
-         "For 96 000 (quick) / 500 000 (thorough) inputs every subset of the spec's master ids (all 2^m - 1 for m <= 6, 12 sampled otherwise) is used as buffered set; the unrolled result must equal the unbuffered parse item by item incl. offsets outside Full items, or be a prefix followed by an error when the unbuffered parse fails.",
+         "For 96 000 (quick) / 500 000 (thorough) inputs every subset of the spec's master ids (all 2^m - 1 for m <= 6, 12 sampled otherwise) is used as buffered set; the unrolled result must equal the unbuffered parse item by item incl. offsets outside Full items, or be a prefix followed by an error when the unbuffered parse fails. Second stage (160 000 / 800 000 inputs): buffering interrupted — end-of-stream closing off, temporary end-of-file at generated tag boundaries, next() called again — must still give the flat stream rolled up (stopping short only right before a buffered master that never gets its End).",
          "metamorphic against the unbuffered parse (anchored by C03/C06/C12)", "4.8"),
  "C01": ("proptest over choice tapes decoded into (specification, conformant forest, per-tag presentation); oracle = generator-side expected sequence (round trip)",
          "640 000 (quick) / 3 M (thorough) generated documents under generated specifications and the macro-derived RichSpec are written through TagWriter with every presentation (default, width 1-8, unknown size, Full with nested Full or Start/End children, raw tags, leaves through write_raw) and read back by the strict iterator; the expected item sequence is the generator's own flattening of the tree, so a symmetric writer+reader bug still shows whenever it changes a value or the structure. Sampling, not exhaustive: depth <= 7, <= 60 elements, payload <= 16 385 bytes (2 MiB in a thorough sub-stage).",
